@@ -1,6 +1,6 @@
 (** Runner entry for the merge model (property C05).
 
-    Case: [(history follow (mfm writable (file ...) d))] — [history] and [follow] are operation
+    Case: [(history follow (mfm writable (file ...) d read-only (pre-op ...)))] — [history] and [follow] are operation
     lists in the wire format of [OverlayRun.v], the files are rows as in [Rec/Chain.v] (source
     containers in index order), [d] the digest of the merged payload.
 
@@ -8,7 +8,7 @@
     [(merged-container merged-view source-view built-equal
       (flags-on-source flags-on-merged same-patch-container
        view-source+patch view-merged+transplanted-patch view-merged+own-patch)
-      (ok merged-file (source-files-after writable-after) pinned-source-files-after) | (refused kind))]
+      ((pre-op-accepted ...) (ok merged-file (source-files-after writable-after) pinned-source-files-after) | (refused kind)))]
     where the follow-up patch is produced by running [follow] after a boundary on the source
     and, separately, on the merged record; "transplanted" is the patch container produced on
     the source stacked as container 1 on the merged container. *)
@@ -35,22 +35,43 @@ Definition of_file (f : Chain.file) : sx :=
      of_opt of_N (Chain.hash u); of_opt of_ext (Chain.ext u); of_N (Chain.dig f);
      of_opt (of_pair of_N of_N) (Chain.mf f)].
 
+Definition sx_rop (x : sx) : option rop :=
+  match x with
+  | L [A "commit"; i; h] =>
+      match sx_N i, sx_N h with Some i, Some h => Some (RCommit i h) | _, _ => None end
+  | L [A "create"; p] => option_map RCreate (sx_N p)
+  | L [A "discard"] => Some RDiscard
+  | L [A "write"; o] => option_map RWrite (sx_op o)
+  | _ => None
+  end.
+
+Fixpoint rrun_flags (mfm ro : bool) (S : rstate) (ops : list rop) : rstate * list bool :=
+  match ops with
+  | [] => (S, [])
+  | o :: rest =>
+      let '(St', bs) := rrun_flags mfm ro (rapply mfm ro S o) rest in
+      (St', bool_decide (is_Some (rstep mfm ro S o)) :: bs)
+  end.
+
+(** [(mfm writable files d ro pre)]: the operations [pre] are performed first (flags: accepted /
+    refused), then the merge. *)
 Definition run_ub (R : stack) (x : sx) : sx :=
   match x with
-  | L [m; w; fs; d] =>
-      match sx_bool m, sx_bool w, sx_map Chain.sx_file fs, sx_N d with
-      | Some m, Some w, Some fs, Some d =>
-          let S := MkRs R fs w in
-          match merge_files m d S, merge_files_pinned m d S with
-          | MOk S' _ f, MOk Sp _ _ =>
-              L [A "ok"; of_file f;
-                 L [L (map of_file (rs_files S')); of_bool (rs_writable S')];
-                 L (map of_file (rs_files Sp))]
-          | MRefusedWritable, _ => L [A "refused"; A "writable"]
-          | MRefusedStub, _ => L [A "refused"; A "stub"]
-          | _, _ => L [A "refused"; A "empty"]
-          end
-      | _, _, _, _ => sx_bad "c05 ub"
+  | L [m; w; fs; d; r; pre] =>
+      match sx_bool m, sx_bool w, sx_map Chain.sx_file fs, sx_N d, sx_bool r, sx_map sx_rop pre with
+      | Some m, Some w, Some fs, Some d, Some r, Some pre =>
+          let '(St, flags) := rrun_flags m r (MkRs R fs w) pre in
+          L [L (map of_bool flags);
+             match merge_files m d St, merge_files_pinned m d St with
+             | MOk S' _ f, MOk Sp _ _ =>
+                 L [A "ok"; of_file f;
+                    L [L (map of_file (rs_files S')); of_bool (rs_writable S')];
+                    L (map of_file (rs_files Sp))]
+             | MRefusedWritable, _ => L [A "refused"; A "writable"]
+             | MRefusedStub, _ => L [A "refused"; A "stub"]
+             | _, _ => L [A "refused"; A "empty"]
+             end]
+      | _, _, _, _, _, _ => sx_bad "c05 ub"
       end
   | _ => sx_bad "c05 ub"
   end.
